@@ -51,6 +51,16 @@ func hxTLSHandshake(st *hxTLSState) error {
 	if st.failed {
 		return &hxTLSErr{"tls: handshake failed earlier"}
 	}
+	if st.under.s.hsStall {
+		// silent peer during the handshake: returns only when a deadline expires
+		s := st.under.s
+		s.stalled = true
+		st.failed = true
+		if !s.deadlineSet {
+			svAssert(false, "C17 TLS handshake with a silent peer and no deadline armed ("+s.phase+")")
+		}
+		return hxTimeoutErr{}
+	}
 	ok := !st.garbage && st.cfg != nil && (st.cfg.InsecureSkipVerify || (st.trusted && st.certName == st.cfg.ServerName))
 	if !ok {
 		st.failed = true
